@@ -54,6 +54,8 @@ FAULT_PROBES = {"runner_killed": "runner_killed", "output_file_torn": "output_to
                 "interrupt_during_submission": "interrupt_submit", "interrupt_while_waiting": "interrupt_wait", "interrupt_during_finalisation": "interrupt_finalise",
                 "command_fails_after_writing_return_file": "fail_after_writing_return_file", "cache_file_unreadable": "cache_unreadable",
                 "runners_overlapped": "runners_overlapped"}
+# a small share of the runs is repeated by fresh interpreters started with `python -O` (assert statements stripped)
+INTERP_VARIANTS = [{"flags": ["-O"], "runs": {"quick": 160, "thorough": 3000}, "what": "python -O (assert statements stripped from the code under test)"}]
 PROBES = ["cache_hit_valid", "cache_other_tag", "cache_failed_rc", "cache_success_flag_but_missing_file", "cache_unreadable", "destination_only_key",
           "item_already_in_destination", "vectorised_partly_cached", "runner_killed", "output_torn", "interrupt_prepare", "interrupt_submit",
           "interrupt_wait", "interrupt_finalise", "tag_changed_between_calls", "fail_after_writing_return_file", "closing_call_completed", "idempotent_call_checked", "runners_overlapped", "driver_with_envars"]
